@@ -84,10 +84,14 @@ def run_property(pid, tier, repo, replay, evidence_dir, write_evidence, seed, t0
     pending = [rid for rid in spec["rules"] if rid not in RULES]
     if pending:
         print(f"note: rules planned for {pid} but not yet implemented: {', '.join(pending)}")
+    rule_errors = []
     for rid in spec["rules"]:
         if rid in RULES:
-            results.append(ctx.rule_result(rid))
-    if not results:
+            try:
+                results.append(ctx.rule_result(rid))
+            except AnalysisError as exc:
+                rule_errors.append(f"{rid}: {exc}")
+    if not results and not rule_errors:
         raise AnalysisError(f"no rule of {pid} is implemented")
     extra_notes = []
     if tier == "thorough":
@@ -125,6 +129,11 @@ def run_property(pid, tier, repo, replay, evidence_dir, write_evidence, seed, t0
         for line in (o.detail.get("path") or [])[:12]:
             print(f"      {line}")
         print(f"VIOLATION property={pid} replay={path}")
+    if rule_errors and not new:
+        # nothing to report, but part of the analysis could not see: never a silent pass
+        raise AnalysisError("; ".join(rule_errors))
+    for e in rule_errors:
+        print(f"note: rule could not complete on this tree (reported violations come from the other rules): {e}")
     wall = time.time() - t0
     if write_evidence and not replay:
         write_ev(pid, spec, tier, seed, results, obligations, violations, known_hits, new, wall,
